@@ -159,6 +159,30 @@ def _lib_Z(obj, f):
         return None, "refused:NotImplementedError"
 
 
+def pred_tlm_char_freq(case):
+    """Tlmbo/bq/bs/no/nq/ns with a characteristic frequency 1/(R_i Y L^2)^(1/n) beyond 1e+-230 (before or after the clamping step)."""
+    if not isinstance(case, dict) or not str(case.get("sym", "")).startswith("Tlm") or "params" not in case:
+        return False
+    p = case["params"]
+    if not all(k in p for k in ("R_i", "Y", "L", "n")):
+        return False
+    variants = [dict(p)]
+    k = sorted(p)[0]
+    if case.get("clamp"):
+        variants.append(dict(p, **{k: 0.5 * p[k]}))
+    for q in variants:
+        try:
+            lg = math.log10(q["R_i"] * q["Y"] * q["L"] ** 2) / q["n"]
+        except (ValueError, ZeroDivisionError, OverflowError):
+            return True
+        if abs(lg) > 230:
+            return True
+    return False
+
+
+PREDICATES = {"tlm-characteristic-frequency-beyond-1e230": pred_tlm_char_freq}
+
+
 def _compare(ctx, case, clause, Z, ref, tol, what, slack=None):
     """|Z - ref| <= tol*|ref| + slack + 1e-300; `slack[i]` is the backward-error allowance of point i."""
     worst = 0.0
